@@ -18,7 +18,7 @@ use std::time::Duration;
 const NKINDS: u64 = 22;
 
 /// Run `n` random calls on `ch`; returns (calls made, sync calls, errors).
-fn worker(ch: Channel, n: usize, mut r: Rng, h: Handle, prefix: String) -> (u64, u64, Vec<String>, Vec<u64>) {
+pub fn worker(ch: Channel, n: usize, mut r: Rng, h: Handle, prefix: String) -> (u64, u64, Vec<String>, Vec<u64>) {
     let id = ch.channel_id();
     let mut seq: u64 = 1; // Channel.Open was sequence number 0
     let mut errs: Vec<String> = Vec::new();
